@@ -36,6 +36,7 @@ def make_registry():
     tm.install(reg)
     cm.install(reg)
     cm.install_translation_model(reg)
+    cm.install_stack_models(reg)
     for c in CONTRACTS:
         reg.add_contract(c)
     return reg
@@ -733,7 +734,139 @@ C_STACK = Contract(
     note="estimator used by contract (the C13 statement); scipy.ndimage.shift translates by +shift (trusted)",
 )
 
-CONTRACTS = [C_CCS, C_CCS2, C_ALIGN, C_DFTT, C_UPS, C_CCT, C_DFTN, C_STACK]
+# ------------------------------------------------------------------------------------------------
+# direct_ptycho_utils._fourier_shift_stack: the shifter behind align_vbf_stack_multiscale (applies the estimator's shifts)
+# ------------------------------------------------------------------------------------------------
+DP = "quantem.diffractive_imaging.direct_ptycho_utils"
+
+
+def fss_setup(ctx):
+    n, Hx, Wx = ctx.fresh("n_images", "int"), ctx.fresh("H", "int"), ctx.fresh("W", "int")
+    ctx.assume(AND(n.t >= 1, Hx.t >= 1, Wx.t >= 1))
+    images = ctx.fresh_arr("images", (n, Hx, Wx), "real")
+    images.name = "images"
+    images.as_type = __import__("torch").Tensor
+    shifts = ctx.fresh_arr("shifts", (n, 2), "real")
+    shifts.as_type = __import__("torch").Tensor
+    return NS(images=images, shifts=shifts, n=n, H=Hx, W=Wx)
+
+
+def fss_ensures(s):
+    res = s.result
+    ok = isinstance(res, SymArr) and res.ndim == 3
+    out = [("returns-a-real-stack", pybool(ok))]
+    if not ok:
+        return out
+    n, Hx, Wx = lift(s.n), lift(s.H), lift(s.W)
+    # the aligned stack replaces the input stack: same number of images, same height, same width - odd AND even sizes
+    out += [("result-has-the-number-of-images-of-the-input", lift(res.shape[0]) == n),
+            ("result-has-the-height-of-the-input(odd-and-even)", lift(res.shape[1]) == Hx),
+            ("result-has-the-width-of-the-input(odd-and-even)", lift(res.shape[2]) == Wx)]
+    ro = getattr(res, "real_of", None)
+    ramp = None
+    if isinstance(ro, CArr):
+        t = norm(ro.expr)
+        if t[0] == "ifft2" and t[1][0] == "mul" and len(t[1]) == 3:
+            fs = [f for f in t[1][1:] if f != ("fft2", "images")]
+            if len(fs) == 1 and fs[0][0] == "ramp":
+                ramp = ro.parts[fs[0][1]]
+    # shift theorem (A5): image translated by s  <=>  spectrum * exp(-2 pi i (k_row s_row / H + k_col s_col / W)), centred frequencies
+    out.append(("result-is-Re-ifft2(fft2(images)*unit-modulus-ramp)", pybool(ramp is not None)))
+    if ramp is not None:
+        q, i, j = (s.ctx.fresh(v, "int").t for v in ("q", "i", "j"))
+        inr = AND(q >= 0, q < n, i >= 0, i < Hx, j >= 0, j < Wx)
+        ok_shape = len(ramp.shape) == 3
+        out.append(("ramp-covers-every-image-and-every-frequency", pybool(ok_shape) if not ok_shape else
+                    AND(lift(ramp.shape[0]) == n, lift(ramp.shape[1]) == Hx, lift(ramp.shape[2]) == Wx)))
+        if ok_shape:
+            s0, s1 = R(s.shifts.fn(q, z3.IntVal(0))), R(s.shifts.fn(q, z3.IntVal(1)))
+            want = -2 * PI * (z3.ToReal(cfreq(i, s.H)) * s0 / R(s.H) + z3.ToReal(cfreq(j, s.W)) * s1 / R(s.W))
+            out.append(("ramp-phase=-2pi*(k_row*shift_row/H+k_col*shift_col/W):image-q-is-translated-BY-shifts[q]",
+                        implies(inr, R(ramp.ramp_phase(q, i, j)) == want)))
+    out.append(("frame:inputs-not-written", pybool(s.images.writes == 0 and s.shifts.writes == 0)))
+    return out
+
+
+C_FSS = Contract(f"{DP}:_fourier_shift_stack", setup=fss_setup, ensures=fss_ensures)
+
+# ------------------------------------------------------------------------------------------------
+# sibling entry point imaging.drift.DriftCorrection.align_translation: WHAT it hands to the estimator (call-site preconditions)
+# The object model, library models and collaborator contracts are C15's (contracts/C15.py, imported lazily: C15 imports this
+# module); only the call-site contract of cross_correlation_shift is replaced by one whose `requires` compares the arguments with
+# the caller's own (recorded in ctx.ghost by the setup).
+# ------------------------------------------------------------------------------------------------
+DR = "quantem.imaging.drift"
+
+
+def at13_setup(ctx):
+    from . import C15
+
+    s = C15.at_setup(ctx)
+    if s.K != 1:
+        ctx.assume(z3.BoolVal(False))   # the knot count is C15's concern; the call-site clauses do not look at it (one count suffices)
+    # the optional argument explicitly passed as well (it only thresholds the measured shift afterwards; it is NOT a search radius)
+    if ctx.branch(ctx.fresh("min_image_shift_given", "bool").t):
+        s.min_image_shift = ctx.fresh("min_image_shift", "real")
+        ctx.assume(s.min_image_shift.t >= 0)
+    ctx.ghost["c13_caller"] = dict(max_image_shift=s.max_image_shift, upsample_factor=s.upsample_factor, min_image_shift=s.min_image_shift)
+    return s
+
+
+def _same(a, b):
+    if a is None or b is None:
+        return pybool(a is b)
+    try:
+        return lift(a) == lift(b)
+    except Exception:
+        return pybool(a is b)
+
+
+def site_requires(s):
+    """cross_correlation_shift as called from align_translation: the search is limited by the CALLER's max_image_shift, refined with
+    the caller's upsample_factor, on spectra in / spectrum out (the caller passes np.fft.fft2 results and averages the returned
+    aligned image into its reference spectrum)."""
+    c = s.ctx.ghost.get("c13_caller")
+    if c is None:
+        return []
+    return [("max_shift-is-the-caller's-max_image_shift", _same(s.max_shift, c["max_image_shift"])),
+            ("upsample_factor-is-the-caller's-upsample_factor", _same(s.upsample_factor, c["upsample_factor"])),
+            ("spectra-handed-in=>fft_input", pybool(s.fft_input is True)),
+            ("aligned-spectrum-averaged-into-the-reference-spectrum=>return_shifted_image-and-fft_output", pybool(s.return_shifted_image is True and s.fft_output is True))]
+
+
+def site_result(ctx, s):
+    from . import C15
+
+    ctx.ghost.setdefault("c13_site_calls", []).append(dict(max_shift=s.max_shift, upsample_factor=s.upsample_factor))
+    return C15.ccs_result(ctx, s)
+
+
+C_SITE = Contract(f"{IU}:cross_correlation_shift", setup=lambda ctx: NS(im_ref=None, im=None), requires=site_requires, result=site_result,
+                  note="call-site contract inside align_translation: arguments are the caller's own; result opaque (C15's)")
+
+
+def at13_ensures(s):
+    calls = s.ctx.ghost.get("c13_site_calls", [])
+    return [("returns-self", pybool(s.result is s.self)),
+            ("one-registration-per-image-after-the-first(image-0-is-the-reference)", pybool(len(calls) == s.N - 1))]
+
+
+C_AT13 = Contract(f"{DR}:DriftCorrection.align_translation", setup=at13_setup, requires=lambda s: __import__("contracts.C15", fromlist=["x"]).at_requires(s),
+                  ensures=at13_ensures, inline=[f"{DR}:DriftCorrection.images"])
+
+
+def _at13_verify(reg, *a, **kw):
+    from . import C15
+
+    r = C15.make_registry()
+    r.contracts[C_SITE.func] = C_SITE
+    cm.install_norm(r)
+    return Contract.verify(C_AT13, r, *a, **kw)
+
+
+C_AT13.verify = _at13_verify
+
+CONTRACTS = [C_CCS, C_CCS2, C_ALIGN, C_DFTT, C_UPS, C_CCT, C_DFTN, C_STACK, C_FSS, C_AT13]
 
 # ------------------------------------------------------------------------------------------------
 # property-level lemmas (from the statements above alone)
@@ -1256,6 +1389,132 @@ def fam_callers(tier="quick", seed=0):
                     yield dict(caller=caller, H=H, W=W, up=up, seed=seed + sd + H)
 
 
+def rt_drift(inp):
+    """public sibling entry point DriftCorrection.align_translation on the real code: for a reference and circularly rolled copies the
+    displacement of each image's knots relative to image 0 is the translation mapping the copy back onto the reference (minus the
+    applied roll), within half a pixel, for every max_image_shift / min_image_shift setting that admits the true shift."""
+    import contextlib
+    import io
+
+    import numpy as np
+    from scipy.ndimage import gaussian_filter
+
+    _single_thread()
+    from quantem.imaging.drift import DriftCorrection
+
+    H, W, up = inp["H"], inp["W"], inp["up"]
+    rng = np.random.default_rng(inp.get("seed", 0))
+    image = gaussian_filter(rng.normal(size=(H, W)), 2.0, mode="wrap") * 10 + 5
+    rolls = [(0, 0)] + [tuple(r) for r in inp["rolls"]]
+    kw = dict(upsample_factor=up, show_merged=False)
+    if inp.get("max_image_shift") is not None:
+        kw["max_image_shift"] = inp["max_image_shift"]
+    if inp.get("min_image_shift") is not None:
+        kw["min_image_shift"] = inp["min_image_shift"]
+    try:
+        with contextlib.redirect_stdout(io.StringIO()), contextlib.redirect_stderr(io.StringIO()):
+            ims = [np.roll(image, r, axis=(0, 1)) for r in rolls]
+            d = DriftCorrection.from_data(ims, scan_direction_degrees=[0.0] * len(ims)).preprocess(pad_fraction=0.0, pad_value="median", kde_sigma=0.5)
+            k0 = [k.copy() for k in d.knots]
+            d.align_translation(**kw)
+    except Exception as e:
+        return dict(violated=True, observed=f"raised {type(e).__name__}: {e}", expected="no exception")
+    moved = np.array([(d.knots[i] - k0[i]).mean(axis=(1, 2)) for i in range(len(ims))])
+    got = moved - moved[0]
+    want = -np.array(rolls, float)
+    # the registered images are the KDE-resampled (sigma 0.5), non-periodically warped copies and, from the third image on, the
+    # reference is a running average: not exact circular translates, so half a pixel instead of 1/upsample
+    tol = 0.5
+    err = np.abs(got - want).max()
+    problems = []
+    if not np.isfinite(err) or err > tol:
+        problems.append(f"knot displacements {np.round(got[1:], 3).tolist()} for applied rolls {rolls[1:]} (expected {want[1:].tolist()}, error {err:.3g} > {tol:.3g})")
+    return dict(violated=bool(problems), observed="; ".join(problems) or "ok",
+                expected="displacement of image i relative to image 0 = minus the applied roll, within half a pixel")
+
+
+def fam_drift(tier="quick", seed=0):
+    cases = [((32, 40), [(3, -2)]), ((33, 35), [(-4, 5)]), ((40, 32), [(3, -2), (-5, 6)])]
+    if tier != "quick":
+        cases += [((48, 48), [(9, -7)]), ((35, 44), [(2, 6), (-6, -3)])]
+    for (H, W), rolls in cases:
+        far = max(float((a * a + b * b) ** 0.5) for a, b in rolls)
+        for up in (1, 4, 8):
+            for mx in (None, round(far + 2.5, 2)):
+                for mn in (None, 0.5, 1.0):
+                    if tier == "quick" and up == 4 and mx is not None and mn == 0.5:
+                        continue
+                    yield dict(H=H, W=W, up=up, rolls=[list(r) for r in rolls], max_image_shift=mx, min_image_shift=mn, seed=seed + H)
+
+
+def conc_drift(ev):
+    up = ev("upsample_factor", 4)
+    mn = ev("min_image_shift", None) if ev("min_image_shift_given", False) else None
+    return dict(H=32, W=40, up=up if up is not None and 1 <= up <= 16 else 4, rolls=[[3, -2]], max_image_shift=None,
+                min_image_shift=(min(max(float(mn), 0.25), 1.0) if mn is not None else 0.5), seed=2)
+
+
+C_AT13.concretize, C_AT13.rt, C_AT13.rt_family = conc_drift, rt_drift, (lambda: fam_drift("quick", 0))
+
+
+def rt_fshift(inp):
+    """_fourier_shift_stack on the real code: a stack of the INPUT shape / dtype, image q = input image q translated by shifts[q]
+    (exact roll for integer shifts, Fourier translation of band-limited images otherwise), inputs untouched."""
+    import numpy as np
+    import torch
+
+    _single_thread()
+    from quantem.diffractive_imaging.direct_ptycho_utils import _fourier_shift_stack
+
+    n, H, W = inp["n"], inp["H"], inp["W"]
+    rng = np.random.default_rng(inp.get("seed", 0))
+    imgs = np.stack([_image(H, W, inp.get("seed", 0) + q) for q in range(n)])
+    if inp["kind"] == "integer":
+        sh = np.stack([rng.integers(-H, H, size=n), rng.integers(-W, W, size=n)], axis=1).astype(float)
+    elif inp["kind"] == "zero":
+        sh = np.zeros((n, 2))
+    else:
+        sh = np.stack([rng.uniform(-H, H, size=n), rng.uniform(-W, W, size=n)], axis=1).round(3)
+    dt = torch.float32 if inp.get("dtype") == "float32" else torch.float64
+    a, b = torch.tensor(imgs, dtype=dt), torch.tensor(sh, dtype=dt)
+    a0, b0 = a.clone(), b.clone()
+    problems = []
+    try:
+        out = _fourier_shift_stack(a, b)
+    except Exception as e:
+        return dict(violated=True, observed=f"raised {type(e).__name__}: {e}", expected="no exception")
+    if tuple(out.shape) != (n, H, W):
+        problems.append(f"shape {tuple(out.shape)} for input {(n, H, W)}")
+    else:
+        want = np.stack([_translate(imgs[q], tuple(sh[q])) for q in range(n)])
+        dev = np.abs(out.numpy().astype(float) - want).max()
+        # the real function builds its frequency grids / ramp in torch's default dtype (complex64) whatever the input dtype
+        if dev > (2e-5 if dt == torch.float32 else 2e-6):
+            problems.append(f"max deviation {dev:.3g} from the input translated by the given shifts")
+    if out.dtype != dt:
+        problems.append(f"dtype {out.dtype} for input {dt}")
+    if not (torch.equal(a, a0) and torch.equal(b, b0)):
+        problems.append("inputs were modified")
+    return dict(violated=bool(problems), observed="; ".join(problems) or "ok",
+                expected="stack of the input shape and dtype, image q translated by shifts[q], inputs untouched")
+
+
+def fam_fshift(tier="quick", seed=0):
+    shapes = [(8, 8), (9, 9), (8, 13), (12, 9), (17, 16), (32, 33), (33, 17)] + ([(15, 20), (25, 18), (31, 31)] if tier != "quick" else [])
+    for (H, W) in shapes:
+        for n in (1, 3):
+            for kind in ("zero", "integer", "subpixel"):
+                for dtype in ("float64", "float32"):
+                    yield dict(n=n, H=H, W=W, kind=kind, dtype=dtype, seed=seed + H + W)
+
+
+def conc_fshift(ev):
+    clip = lambda v, d: v if v is not None and 2 <= v <= 40 else d
+    return dict(n=min(max(ev("n_images", 2) or 2, 1), 4), H=clip(ev("H"), 9), W=clip(ev("W"), 11), kind="integer", dtype="float64", seed=1)
+
+
+C_FSS.concretize, C_FSS.rt, C_FSS.rt_family = conc_fshift, rt_fshift, (lambda: fam_fshift("quick", 0))
+
 C_STACK.concretize = lambda ev: dict(caller="tomography", H=17, W=20, up=1, seed=int(ev("n_images", 3) or 3) % 7)
 C_STACK.rt = rt_callers
 C_STACK.rt_family = lambda: (i for i in fam_callers("quick", 0) if i["caller"] == "tomography")
@@ -1265,6 +1524,12 @@ BOUNDED = [
                   "shapes 8..33 odd/even/non-square (11 quick, 17 thorough), upsample {1,2,3,4,8,16,64} (+5,32 thorough), identical / 4 integer / 4 sub-pixel shifts "
                   "incl. beyond half the size, real and Fourier inputs, fft_output, max_shift, float32/float64; inputs snapshotted and compared, two calls"),
     Bounded.from_rt("matrix-multiply DFT window vs direct trigonometric sum", rt_dft, fam_dft, "6 shapes, 4 factors, 3 centres, numpy + torch", klass=klass_dft),
+    Bounded.from_rt("sibling entry point DriftCorrection.align_translation registers rolled copies", rt_drift, fam_drift,
+                    "3 shapes (5 thorough) odd/even/non-square, 1-2 rolled copies, upsample {1,4,8}, max_image_shift default / just above the shift, "
+                    "min_image_shift None / 0.5 / 1.0 (inert: below the shifts)", klass=lambda inp, res: "min_image_shift-given" if inp.get("min_image_shift") is not None else "default"),
+    Bounded.from_rt("stack shifter _fourier_shift_stack: input shape, translated by the given shifts", rt_fshift, fam_fshift,
+                    "7 shapes odd/even/non-square (10 thorough), 1 and 3 images, zero / integer / sub-pixel shifts anywhere in the cell, float32/float64",
+                    klass=lambda inp, res: "odd-width" if inp["W"] % 2 else "even-width"),
     Bounded.from_rt("call sites: tomography stack alignment and direct-ptychography reference / pairwise shifts", rt_callers, fam_callers,
                     "3 shapes, compact blob images, 3 integer translations in [-2,2]^2, upsample {1,2,4,8} (torch), 2 seeds (5 thorough)",
                     klass=lambda inp, res: inp["caller"]),
